@@ -7,7 +7,11 @@ extern HCLT *g_cl;                 /* the list the last one was made on */
 extern int g_kind;                 /* prototype of the last one: 1 = (VArg), 2 = (WArg)  (overload chosen by the argument type) */
 extern int g_cbid;                 /* argument value it received */
 extern struct Mutex *g_dmutex;     /* the mutex of the dispatcher under proof (ghost) */
-#define LOG g_n, g_cl, g_kind, g_cbid
+extern int g_op;                   /* the last operation: 1 append 2 prepend 3 insert 4 remove 5 empty 9 operator() */
+extern const void *g_cb;           /* callback object passed */
+extern Handle g_hp, g_rh;          /* handle passed / handle returned */
+extern _Bool g_rb;                 /* boolean returned */
+#define LOG g_n, g_cl, g_kind, g_cbid, g_op, g_cb, g_hp, g_rh, g_rb
 
 /* ------------------------------------------------------------------ TRUSTED map abstraction (lookup only) */
 #define KIND_OF_listenerMutex 3
@@ -22,6 +26,17 @@ static inline WMIt wmap_find(WMap *m, int key)
   return (WMIt){m, 2};
 }
 #define WMAP_FIND(m, key) wmap_find(m, key)
+static inline HCLT *wmap_index(WMap *m, int key)
+{
+  WM_GUARDED(m);
+  if (key == g_K) {
+    if (!m->has) { m->has = 1; m->w.first = key; HCLT fresh; m->w.second = fresh; }    /* a new, empty list */
+    return &m->w.second;
+  }
+  WPair fresh; g_anonP = fresh; g_anonP.first = key;
+  return &g_anonP.second;
+}
+#define WMAP_INDEX(m, key) wmap_index(m, key)
 #define WMAP_END(m) ((WMIt){(m), 2})
 static inline _Bool wmit_ne(WMIt a, WMIt b) { __CPROVER_assert(a.m == b.m, "map iterators of the same map are compared"); return a.pos != b.pos; }
 #define WMIT_NE(a, b) wmit_ne(a, b)
@@ -34,8 +49,8 @@ static inline WPair *wmit_deref(WMIt it) { __CPROVER_assert(it.pos == 0 || it.po
 #define CONTRACT_Pol_getEvent__WArg __CPROVER_assigns() __CPROVER_ensures(__CPROVER_return_value == (a0.id ^ 0x2a))
 /* HeterCallbackList::operator()(args...): invoked with no dispatcher mutex held; logs list, prototype, argument value */
 #define NO_DLOCK (g_dmutex->depth == 0)
-#define CONTRACT_HCLT_call       __CPROVER_requires(NO_DLOCK) __CPROVER_assigns(LOG) __CPROVER_ensures(g_n == __CPROVER_old(g_n) + 1 && g_cl == f && g_kind == 1 && g_cbid == a0->id)
-#define CONTRACT_HCLT_call__WArg __CPROVER_requires(NO_DLOCK) __CPROVER_assigns(LOG) __CPROVER_ensures(g_n == __CPROVER_old(g_n) + 1 && g_cl == f && g_kind == 2 && g_cbid == a0->id)
+#define CONTRACT_HCLT_call       __CPROVER_requires(NO_DLOCK) __CPROVER_assigns(LOG) __CPROVER_ensures(g_n == __CPROVER_old(g_n) + 1 && g_cl == f && g_op == 9 && g_kind == 1 && g_cbid == a0->id)
+#define CONTRACT_HCLT_call__WArg __CPROVER_requires(NO_DLOCK) __CPROVER_assigns(LOG) __CPROVER_ensures(g_n == __CPROVER_old(g_n) + 1 && g_cl == f && g_op == 9 && g_kind == 2 && g_cbid == a0->id)
 
 /* ------------------------------------------------------------------ the dispatcher */
 #define HD_FRESH(s) (__CPROVER_is_fresh(s, sizeof(*(s))) && __CPROVER_pointer_equals((s)->eventCallbackListMap.guard, &(s)->listenerMutex) && __CPROVER_pointer_equals(g_dmutex, &(s)->listenerMutex))
@@ -89,3 +104,45 @@ static inline WPair *wmit_deref(WMIt it) { __CPROVER_assert(it.pos == 0 || it.po
 #define CONTRACT_HDI_dispatch__WArg_2 DISPATCH_I(WArg, 2)
 #define CONTRACT_HDX_dispatch__int    DISPATCH_X(VArg, 1) __CPROVER_ensures(args->id == __CPROVER_old(args->id))
 #define CONTRACT_HDX_dispatch__int_2  DISPATCH_X(WArg, 2)
+
+/* ------------------------------------------------------------------ listener management (C04 "per event every listener-management operation behaves
+ * exactly like the corresponding callback-list operation", C14): each operation is THE corresponding operation of the
+ * heterogeneous callback list registered for that event - exactly one, with the caller's callback / handle, its result
+ * returned unchanged - and touches no other event's list; adding creates the event's list if there is none; the map is
+ * read and changed only with listenerMutex held (guard assertion in the map primitives) and the mutex is released on
+ * return; remove and empty run on the list with the dispatcher's mutex already released (they take the list's own). */
+#define B01(b) ((b) == 0 || (b) == 1)
+#define HEQ(a, b) ((a).index == (b).index && (a).p == (b).p)
+#define OPLOG(OP) (B01(g_rb) && g_n == __CPROVER_old(g_n) + 1 && g_cl == self && g_op == (OP))
+#define CONTRACT_HCLT_append      __CPROVER_assigns(LOG) __CPROVER_ensures(OPLOG(1) && g_cb == (const void *)a0 && HEQ(__CPROVER_return_value, g_rh))
+#define CONTRACT_HCLT_append__CbW __CPROVER_assigns(LOG) __CPROVER_ensures(OPLOG(1) && g_cb == (const void *)a0 && HEQ(__CPROVER_return_value, g_rh))
+#define CONTRACT_HCLT_prepend     __CPROVER_assigns(LOG) __CPROVER_ensures(OPLOG(2) && g_cb == (const void *)a0 && HEQ(__CPROVER_return_value, g_rh))
+#define CONTRACT_HCLT_insert      __CPROVER_assigns(LOG) __CPROVER_ensures(OPLOG(3) && g_cb == (const void *)a0 && HEQ(g_hp, *a1) && HEQ(__CPROVER_return_value, g_rh))
+#define CONTRACT_HCLT_remove      __CPROVER_requires(NO_DLOCK) __CPROVER_assigns(LOG) __CPROVER_ensures(OPLOG(4) && HEQ(g_hp, *a0) && __CPROVER_return_value == g_rb)
+#define CONTRACT_HCLT_empty       __CPROVER_requires(NO_DLOCK) __CPROVER_assigns(LOG) __CPROVER_ensures(OPLOG(5) && __CPROVER_return_value == g_rb)
+#define MG_FRAME(s) (s)->eventCallbackListMap.has, (s)->eventCallbackListMap.w, HD_FRAME(s)
+#define ADD_CONTRACT(OP, CBT, EXTRA_REQ, EXTRA_ENS) \
+  __CPROVER_requires(HD_FRESH(self) && __CPROVER_is_fresh(event, sizeof(int)) && __CPROVER_is_fresh(callback, sizeof(CBT)) && HD_PRE(self) EXTRA_REQ) \
+  __CPROVER_assigns(MG_FRAME(self)) \
+  __CPROVER_ensures(HD_OK(self) && g_n == __CPROVER_old(g_n) + 1 && g_op == (OP) && g_cb == (const void *)callback && HEQ(__CPROVER_return_value, g_rh) EXTRA_ENS) \
+  __CPROVER_ensures(*event == g_K ? (HAS(self) && g_cl == WLIST(self)) \
+                                  : (HAS(self) == __CPROVER_old(HAS(self)) && g_cl == &g_anonP.second && g_anonP.first == *event))
+#define CONTRACT_HDX_appendListener__CbV  ADD_CONTRACT(1, CbV, , )
+#define CONTRACT_HDX_appendListener__CbW  ADD_CONTRACT(1, CbW, , )
+#define CONTRACT_HDX_prependListener__CbV ADD_CONTRACT(2, CbV, , )
+#define CONTRACT_HDX_insertListener__CbV  ADD_CONTRACT(3, CbV, && __CPROVER_is_fresh(before, sizeof(Handle)), && HEQ(g_hp, *before))
+#define FOUND_OP(OP, RESULT, NONE) \
+  __CPROVER_ensures(HD_OK(self) && HAS(self) == __CPROVER_old(HAS(self))) \
+  __CPROVER_ensures((*event == g_K && HAS(self)) ==> (g_n == __CPROVER_old(g_n) + 1 && g_op == (OP) && g_cl == WLIST(self) && __CPROVER_return_value == (RESULT))) \
+  __CPROVER_ensures((*event == g_K && !HAS(self)) ==> (g_n == __CPROVER_old(g_n) && __CPROVER_return_value == (NONE))) \
+  __CPROVER_ensures((*event != g_K) ==> ((g_n == __CPROVER_old(g_n) && __CPROVER_return_value == (NONE)) || \
+                                        (g_n == __CPROVER_old(g_n) + 1 && g_op == (OP) && g_cl == &g_anonP.second && g_anonP.first == *event && __CPROVER_return_value == (RESULT))))
+#define CONTRACT_HDX_removeListener \
+  __CPROVER_requires(HD_FRESH(self) && __CPROVER_is_fresh(event, sizeof(int)) && HD_PRE(self)) \
+  __CPROVER_assigns(HD_FRAME(self)) \
+  FOUND_OP(4, g_rb, 0) \
+  __CPROVER_ensures(g_n == __CPROVER_old(g_n) + 1 ==> HEQ(g_hp, handle))
+#define CONTRACT_HDX_hasAnyListener \
+  __CPROVER_requires(HD_FRESH(self) && __CPROVER_is_fresh(event, sizeof(int)) && HD_PRE(self)) \
+  __CPROVER_assigns(HD_FRAME(self)) \
+  FOUND_OP(5, !g_rb, 0)
